@@ -134,14 +134,23 @@ func ruleFLAGSYM1(c *Ctx) {
 	}
 	readFlags := func(f *FuncInfo) uint64 {
 		var m uint64
-		ast.Inspect(f.Body(), func(n ast.Node) bool {
-			if call, ok := n.(*ast.CallExpr); ok {
-				if mm, _, v, ok := FlagCall(f.Info(), call); ok && mm == "Get" {
-					m |= v &^ 1 // the value of the option is consulted (Has is only a presence pre-check)
+		// the closure itself (with nested literals) and the private helpers / closure variables it calls
+		for i, g := range p.CalleeClosure(f, 2) {
+			g := g
+			visit := func(n ast.Node) bool {
+				if call, ok := n.(*ast.CallExpr); ok {
+					if mm, _, v, ok := FlagCall(g.Info(), call); ok && mm == "Get" {
+						m |= v &^ 1 // the value of the option is consulted (Has is only a presence pre-check)
+					}
 				}
+				return true
 			}
-			return true
-		})
+			if i == 0 {
+				ast.Inspect(g.Body(), visit)
+			} else {
+				InspectNoLit(g.Body(), visit)
+			}
+		}
 		return m
 	}
 	for _, pr := range pairs {
@@ -155,32 +164,79 @@ func ruleFLAGSYM1(c *Ctx) {
 	}
 }
 
-// formatCases collects the string constants a closure compares X.Format against (switch cases and ==).
-func formatCases(p *Program, f *FuncInfo) map[string]bool {
-	info := f.Info()
+// formatExprIn reports whether e, inside function g of the scope of f, denotes the Format option:
+// the ArshalValues.Format field itself, or a parameter of a private helper that receives it.
+func formatExprIn(p *Program, scope []*FuncInfo, g *FuncInfo, e ast.Expr, depth int) bool {
 	formatField := p.Field("jsonopts", "ArshalValues", "Format")
+	info := g.Info()
+	if SelField(info, e) == formatField {
+		return true
+	}
+	v, _ := IdentObj(info, e).(*types.Var)
+	if v == nil || depth > 2 || g.Obj == nil {
+		return false
+	}
+	sig, _ := g.Obj.Type().(*types.Signature)
+	if sig == nil {
+		return false
+	}
+	for i := 0; i < sig.Params().Len(); i++ {
+		if sig.Params().At(i) != v {
+			continue
+		}
+		for _, h := range scope {
+			hit := false
+			ast.Inspect(h.Body(), func(n ast.Node) bool {
+				if call, ok := n.(*ast.CallExpr); ok && Callee(h.Info(), call) == g.Obj && i < len(call.Args) {
+					if formatExprIn(p, scope, h, call.Args[i], depth+1) {
+						hit = true
+					}
+				}
+				return !hit
+			})
+			if hit {
+				return true
+			}
+		}
+	}
+	return false
+}
+
+// formatCases collects the string constants a closure (or a private helper it calls) compares the
+// Format option against (switch cases and ==).
+func formatCases(p *Program, f *FuncInfo) map[string]bool {
 	out := map[string]bool{}
-	ast.Inspect(f.Body(), func(n ast.Node) bool {
-		switch x := n.(type) {
-		case *ast.SwitchStmt:
-			if x.Tag != nil && SelField(info, x.Tag) == formatField {
-				for _, st := range x.Body.List {
-					for _, e := range st.(*ast.CaseClause).List {
-						if s, ok := ConstStr(info, e); ok {
-							out[s] = true
+	scope := p.CalleeClosure(f, 2)
+	for i, g := range scope {
+		g := g
+		info := g.Info()
+		visit := func(n ast.Node) bool {
+			switch x := n.(type) {
+			case *ast.SwitchStmt:
+				if x.Tag != nil && formatExprIn(p, scope, g, x.Tag, 0) {
+					for _, st := range x.Body.List {
+						for _, e := range st.(*ast.CaseClause).List {
+							if s, ok := ConstStr(info, e); ok {
+								out[s] = true
+							}
 						}
 					}
 				}
-			}
-		case *ast.BinaryExpr:
-			if SelField(info, x.X) == formatField {
-				if s, ok := ConstStr(info, x.Y); ok {
-					out[s] = true
+			case *ast.BinaryExpr:
+				if formatExprIn(p, scope, g, x.X, 0) {
+					if s, ok := ConstStr(info, x.Y); ok {
+						out[s] = true
+					}
 				}
 			}
+			return true
 		}
-		return true
-	})
+		if i == 0 {
+			ast.Inspect(g.Body(), visit)
+		} else {
+			InspectNoLit(g.Body(), visit)
+		}
+	}
 	return out
 }
 
@@ -270,37 +326,40 @@ func ruleCODEC1(c *Ctx) {
 	}
 	// format -> suffix choice agrees in both directions (bytes arshaler)
 	choice := func(f *FuncInfo) map[string]string {
-		info := f.Info()
 		out := map[string]string{}
-		formatField := p.Field("jsonopts", "ArshalValues", "Format")
-		ast.Inspect(f.Body(), func(n ast.Node) bool {
-			sw, ok := n.(*ast.SwitchStmt)
-			if !ok || sw.Tag == nil || SelField(info, sw.Tag) != formatField {
-				return true
-			}
-			for _, st := range sw.Body.List {
-				cc := st.(*ast.CaseClause)
-				sufs := map[string]bool{}
-				ast.Inspect(&ast.BlockStmt{List: cc.Body}, func(m ast.Node) bool {
-					if id, ok := m.(*ast.Ident); ok {
-						if _, isBind := binds[id.Name]; isBind && info.Uses[id] != nil {
-							for _, pre := range []string{"appendEncode", "appendDecode", "encodedLen"} {
-								if strings.HasPrefix(id.Name, pre) {
-									sufs[strings.TrimPrefix(id.Name, pre)] = true
+		scope := p.CalleeClosure(f, 2)
+		for _, g := range scope {
+			g := g
+			info := g.Info()
+			ast.Inspect(g.Body(), func(n ast.Node) bool {
+				sw, ok := n.(*ast.SwitchStmt)
+				if !ok || sw.Tag == nil || !formatExprIn(p, scope, g, sw.Tag, 0) {
+					return true
+				}
+				for _, st := range sw.Body.List {
+					cc := st.(*ast.CaseClause)
+					sufs := map[string]bool{}
+					ast.Inspect(&ast.BlockStmt{List: cc.Body}, func(m ast.Node) bool {
+						if id, ok := m.(*ast.Ident); ok {
+							if _, isBind := binds[id.Name]; isBind && info.Uses[id] != nil {
+								for _, pre := range []string{"appendEncode", "appendDecode", "encodedLen"} {
+									if strings.HasPrefix(id.Name, pre) {
+										sufs[strings.TrimPrefix(id.Name, pre)] = true
+									}
 								}
 							}
 						}
-					}
-					return true
-				})
-				for _, e := range cc.List {
-					if s, ok := ConstStr(info, e); ok && len(sufs) > 0 {
-						out[s] = strings.Join(sortedKeys(sufs), "+")
+						return true
+					})
+					for _, e := range cc.List {
+						if s, ok := ConstStr(info, e); ok && len(sufs) > 0 {
+							out[s] = strings.Join(sortedKeys(sufs), "+")
+						}
 					}
 				}
-			}
-			return true
-		})
+				return true
+			})
+		}
 		return out
 	}
 	for _, pr := range pairs {
@@ -330,15 +389,22 @@ func ruleCODEC1(c *Ctx) {
 					return true
 				}
 				for _, r := range as.Rhs {
-					if id, ok := ast.Unparen(r).(*ast.Ident); ok {
-						if _, isBind := binds[id.Name]; isBind && info.Uses[id] != nil {
-							for _, pre := range []string{"appendEncode", "appendDecode", "encodedLen"} {
-								if strings.HasPrefix(id.Name, pre) {
-									res[strings.TrimPrefix(id.Name, pre)] = true
+					// the identifier itself, or a small value built from it (a struct carrying the pair)
+					ast.Inspect(r, func(m ast.Node) bool {
+						if _, isCall := m.(*ast.CallExpr); isCall {
+							return false
+						}
+						if id, ok := m.(*ast.Ident); ok {
+							if _, isBind := binds[id.Name]; isBind && info.Uses[id] != nil {
+								for _, pre := range []string{"appendEncode", "appendDecode", "encodedLen"} {
+									if strings.HasPrefix(id.Name, pre) {
+										res[strings.TrimPrefix(id.Name, pre)] = true
+									}
 								}
 							}
 						}
-					}
+						return true
+					})
 				}
 				return true
 			})
